@@ -30,8 +30,9 @@ class Bounded:
     fn(tier, seed) -> dict(evaluations, distinct_nontrivial, failures=[dict(...)], scope, samples, exhaustive)
     """
 
-    def __init__(self, name, properties, fn, scope="", kind="exhaustive-small-scope"):
+    def __init__(self, name, properties, fn, scope="", kind="exhaustive-small-scope", needs_ext=False):
         self.name, self.properties, self.fn, self.scope, self.kind = name, tuple(properties), fn, scope, kind
+        self.needs_ext = needs_ext   # the stand-in runs against the C++ extensions rebuilt from /repo's current sources ($PYVC_EXT_DIR)
 
 
 def load_modules():
@@ -147,6 +148,27 @@ def run_property(pid, tier="quick", seed=0, jobs=None, only=None):
                 tasks.append(("bounded", mod.__name__, bi, 0))
     jobs = jobs or min(16, os.cpu_count() or 4)
     results = []
+    ext_dir = None
+    need_ext = any(getattr(getattr(importlib.import_module(t[1]), "BOUNDED")[t[2]], "needs_ext", False) for t in tasks if t[0] == "bounded")
+    if need_ext:
+        import subprocess
+        b = subprocess.run([os.path.join(ROOT, "bounded", "build_ext.sh")], capture_output=True, text=True)
+        if b.returncode != 0:
+            raise RuntimeError("C++ extension rebuild from /repo failed: " + b.stderr[-800:])
+        ext_dir = b.stdout.strip().splitlines()[-1]
+        os.environ["PYVC_EXT_DIR"] = ext_dir
+    try:
+        results = _run_tasks(tasks, jobs)
+    finally:
+        if ext_dir:
+            import shutil
+            shutil.rmtree(ext_dir, ignore_errors=True)
+            os.environ.pop("PYVC_EXT_DIR", None)
+    return summarize(pid, tier, seed, results, time.time() - t0, mods)
+
+
+def _run_tasks(tasks, jobs):
+    results = []
     if tasks:
         if jobs == 1 or len(tasks) == 1:
             results = [_worker(t) for t in tasks]
@@ -154,7 +176,7 @@ def run_property(pid, tier="quick", seed=0, jobs=None, only=None):
             ctx = mp.get_context("fork")
             with ctx.Pool(jobs) as pool:
                 results = pool.map(_worker, tasks, chunksize=1)
-    return summarize(pid, tier, seed, results, time.time() - t0, mods)
+    return results
 
 
 def summarize(pid, tier, seed, results, wall, mods):
